@@ -157,7 +157,13 @@ class _Normalizer:
             self._each_function(m, self._generator_form)
             # (a function that returned a generator expression over a helper generator is a loop now: fuse again)
             self._each_function(m, self._fuse_in_function)
-            self._each_function(m, self._iteration_idioms)
+            # (second round: only the forms a fusion may have brought together; loops made from generator expressions keep
+            # their enumerate() -- the rules read ITEM(enumerate(..)))
+            self._idioms_round2 = True
+            try:
+                self._each_function(m, self._iteration_idioms)
+            finally:
+                self._idioms_round2 = False
             self._each_function(m, self._augment_function)
             self._each_function(m, self._prune_constant_tests)
             self._each_function(m, self._desugar_function)
@@ -2572,7 +2578,7 @@ class _Normalizer:
             if isinstance(st, ast.For) and isinstance(st.iter, ast.Call) and isinstance(st.iter.func, ast.Name) \
                     and st.iter.func.id == 'enumerate' and 'enumerate' not in local and 1 <= len(st.iter.args) <= 2 \
                     and not st.iter.keywords and isinstance(st.target, ast.Tuple) and len(st.target.elts) == 2 \
-                    and isinstance(st.target.elts[0], ast.Name):
+                    and isinstance(st.target.elts[0], ast.Name) and not getattr(me, '_idioms_round2', False):
                 start = st.iter.args[1] if len(st.iter.args) == 2 else ast.Constant(value=0)
                 if isinstance(start, ast.Constant) and isinstance(start.value, int):
                     i = st.target.elts[0].id
